@@ -42,7 +42,7 @@ its reset to ON at the start of every pass and file) x the class of the message 
 Not covered: -t (listing mask), PAGE (page length 0 / width), MACEXP, messages raised inside macro expansions or include
 files while unlisted, -l together with -L on one command line (the later wins), +l in ASCMD, I/O errors of the listing.
 Mutations tried on scratch copies (all compile; this phase alone, quick tier, 6 000 runs):
-  the seeded change (`!ListOn` dropped from the error-channel test)                    126 VIOLATION in ./check C02 --tier quick
+  the seeded change (`!ListOn` dropped from the error-channel test)                    97 - 126 VIOLATION in ./check C02 --tier quick
   m3 asmsub.c WrLstLine printing only under LISTING ON (`ListOn != 1` returns)          190 VIOLATION (+ 381 placement drifts):
        with -l a message inside NOSKIPPED / PURECODE is written nowhere
   m4 the error channel used only when the listing did not take the message (`strcmp(LstName, "!1") ||` dropped)
